@@ -805,8 +805,7 @@ class TreeGitStore(GitStore):
             fi = open_by_extension(current_blob.chunked, name, self.extra_file_handlers)
             message = "Delete " + fi.describe(name)
         if etag is not None:
-            with open(p, "rb") as f:
-                current_etag = current_blob.id
+            current_etag = current_blob.id
             if etag.encode("ascii") != current_etag:
                 raise InvalidETag(name, etag, current_etag.decode("ascii"))
         try:
